@@ -230,6 +230,17 @@ func (c *Ctx) rawSchema(depth int, pos string) *Schema {
 		if tgt := c.Doc.ResolveSchema(c.Doc.Components.Schemas[name]); tgt != nil && tgt.Type == "string" && tgt.Format == "date-time" && !c.Allow("json-ref:datetime-component") {
 			return &Schema{Type: "string", Format: "date-time"}
 		}
+		// an alias component is `type A B` without B's JSON methods (known finding
+		// C06-F1): at JSON positions reference the aliased component itself
+		if !c.Allow("json-ref:alias-component") {
+			for i := 0; i < 8; i++ {
+				cs := c.Doc.Components.Schemas[name]
+				if cs == nil || cs.Ref == "" {
+					break
+				}
+				name = strings.TrimPrefix(cs.Ref, RefSchemas)
+			}
+		}
 		return &Schema{Ref: RefSchemas + name}
 	}
 	// nullable is drawn for primitives, any, inline objects and maps only: for arrays
